@@ -95,7 +95,40 @@ func New(id, tier, engine string) *Check {
 	}
 	c.deadline = c.start.Add(time.Duration(secs * float64(time.Second)))
 	c.loadKnown()
+	current = c
 	return c
+}
+
+// current is the check of this process (one per process): where a panic inside Parallel goes.
+var current *Check
+
+// PanicSig renders a panic as a stable signature: the innermost frame inside morlock and the error.
+func PanicSig(r any, stack string) string {
+	where := "?"
+	lines := strings.Split(stack, "\n")
+	for _, l := range lines {
+		if strings.HasPrefix(l, "github.com/herohde/morlock/") {
+			where = strings.TrimPrefix(l, "github.com/herohde/morlock/")
+			if i := strings.LastIndex(where, "("); i > 0 {
+				where = where[:i]
+			}
+			break
+		}
+	}
+	return fmt.Sprintf("panic in %s: %v", where, r)
+}
+
+// Guard runs f; a panic inside it becomes a violation of the check (the code under test must not
+// crash on the inputs of a check) instead of the death of the checker.
+func (c *Check) Guard(kind string, data any, where string, f func()) {
+	defer func() {
+		if r := recover(); r != nil {
+			buf := make([]byte, 8192)
+			stack := string(buf[:runtime.Stack(buf, false)])
+			c.Violation(c.ID+"/"+PanicSig(r, stack), fmt.Sprintf("%v at %s\n%s", r, where, stack), kind, data)
+		}
+	}()
+	f()
 }
 
 func (c *Check) Thorough() bool { return c.Tier == "thorough" }
@@ -345,7 +378,12 @@ func Parallel(n int, fn func(i int)) {
 				if i >= n {
 					return
 				}
-				fn(i)
+				if current == nil {
+					fn(i)
+				} else {
+					// the net under every targeted guard: replaying re-runs the check
+					current.Guard("panic", map[string]string{"check": current.ID, "tier": current.Tier}, fmt.Sprintf("parallel item %d of %d", i, n), func() { fn(i) })
+				}
 			}
 		}()
 	}
